@@ -83,6 +83,20 @@ func (rn *runner) bytesCase(k int, c *codec, b []byte) *report {
 // inputs over this size go to the real decoders only (the driver works on linked lists of bytes)
 const maxModelInput = 4 << 20
 
+// validRaw: bytes produced by a canonical generator for a type that has no public constructor must be accepted,
+// consumed entirely, and re-encoded from the decoded fields to the same bytes.
+func (rn *runner) validRaw(k int, c *codec, b []byte) {
+	rep := rn.bytesCase(k, c, b)
+	exp := fmt.Sprintf("ok rest=0 enc=%s ", hx.Hex(b))
+	switch {
+	case !strings.HasPrefix(rep.obs, "ok"):
+		rn.o.Fail(c.name+"-roundtrip", k, "a valid encoding is rejected (%s): %s", rep.obs, trunc(hx.Hex(b), 300))
+	case !strings.HasPrefix(rep.obs, exp):
+		rn.o.Fail(c.name+"-roundtrip", k, "a valid encoding is re-encoded differently from its decoded fields: %s -> %s", trunc(hx.Hex(b), 200), trunc(rep.obs, 300))
+	}
+	rn.o.Count("roundtrip:" + c.name)
+}
+
 func pickCodec(r *prng.R) *codec {
 	w := make([]int, len(codecs))
 	for i, c := range codecs {
@@ -256,6 +270,11 @@ func (rn *runner) codecCase(k int, r *prng.R) {
 		}
 	}
 	o.Count("mut:" + strings.SplitN(mut, "+", 2)[0])
+	if mut == mutNone && !g.invalid && c.rawGen != nil {
+		rn.validRaw(k, c, b)
+		o.Seen(fmt.Sprintf("%s/%s/%x", c.name, mut, hashShort(b)))
+		return
+	}
 	rep := rn.bytesCase(k, c, b)
 	if mut == mutNone && !g.invalid && c.rawGen == nil {
 		// round trip of a valid value through the real encoder and decoder
@@ -401,7 +420,7 @@ func main() {
 			continue
 		}
 		r := prng.ForCase(f.Seed, k)
-		switch r.Weighted([]int{8, 62, 14, 16}) {
+		switch r.Weighted([]int{8, 58, 14, 14, 6}) {
 		case 0:
 			rn.varuintCase(k, r)
 			o.Count("case:varuint")
@@ -411,9 +430,12 @@ func main() {
 		case 2:
 			rn.txPathCase(k, r)
 			o.Count("case:txpaths")
-		default:
+		case 3:
 			rn.randomCase(k, r)
 			o.Count("case:random-bytes")
+		default:
+			rn.copyCase(k, r)
+			o.Count("case:copy")
 		}
 	}
 }
